@@ -81,6 +81,11 @@ class LoopCtx:
     def iter_log(self):
         return self.I.st.log[self.iter_log_start:]
 
+    def iter_yields(self):
+        """values this iteration of a generator's loop has yielded so far"""
+        ys = self.I.st.ghost.get("yields")
+        return list(ys[-1][self.iter_yields_start:]) if ys else []
+
     def cid(self, name):
         t = self.I.table
         return t.ids[name] if name in t.ids else self.I.index.find_class(name).cid
@@ -464,12 +469,31 @@ class StmtMixin:
 
     def havoc_loop(self, body, extra_modifies=None):
         names = assigned_names(body)
+        # containers created on this path that the loop body can reach through a variable it mentions: earlier
+        # iterations may have written them, so a havoc for this loop must not keep their contents
+        mentioned = {n.id for b in body for n in ast.walk(b) if isinstance(n, ast.Name)}
+        touched = set()
+        f = self.frame
+        while f is not None:
+            for nm, v in f.locals.items():
+                if nm in mentioned:
+                    try:
+                        vs = z3.simplify(v)
+                        if z3.is_app(vs) and vs.decl().name() == "VRef" and z3.is_int_value(vs.arg(0)):
+                            touched.add(vs.arg(0).as_long())
+                    except Exception:
+                        pass
+            f = f.parent
         for n in names:
             if n not in self.frame.locals:
                 # not bound before the loop: in the first iteration a read before the assignment finds it unbound
                 self.frame.__dict__.setdefault("maybe_unbound", set()).add(n)
             self.frame.locals[n] = self.ctx.fresh("hv_" + n, Val)
-        self.havoc_heap_for(body, extra_modifies)
+        self.st.ghost["_loop_touched"] = touched
+        try:
+            self.havoc_heap_for(body, extra_modifies)
+        finally:
+            self.st.ghost["_loop_touched"] = set()
         return names
 
     def havoc_heap_for(self, body, extra_modifies=None):
@@ -495,12 +519,20 @@ class StmtMixin:
                         dicts = True
         if extra_modifies == "none":
             return
+
+        def own_fields():
+            # fields the loop body itself assigns (also "final" ones, when the loop sits inside an __init__)
+            for f in fields:
+                self.st.fields[f] = self.ctx.fresh("hvF_" + f, ArrIV)
         if isinstance(extra_modifies, (list, tuple)):
             self.apply_havoc(extra_modifies)      # the loop contract states the frame explicitly
+            if any(m[0] == "all" for m in extra_modifies):
+                own_fields()
             return
         if calls and extra_modifies is None:
             # calls may modify anything their contracts allow: conservative
             self.havoc_all_heap()
+            own_fields()
             return
         for f in fields:
             self.st.fields[f] = self.ctx.fresh("hvF_" + f, ArrIV)
@@ -518,15 +550,16 @@ class StmtMixin:
         """Havoc every heap component except the type map, and except state registered as private to the
         function under verification (st.ghost['protected']: encapsulation assumption, listed in evidence)."""
         prot = self.st.ghost.get("protected") or {}
-        pf = set(prot.get("fields", ()))
+        # fields nobody rebinds after construction (front.Index.final_fields) survive any call
+        pf = set(prot.get("fields", ())) | set(getattr(self.index, "final_fields", ()))
         old = (self.st.llen, self.st.lel, self.st.dhas, self.st.dval, self.st.dlen)
+        for f in pf:
+            self.st.field_arr(f)      # protected fields keep their arrays: materialise them in the current generation
         for f in list(self.st.fields):
             if f in pf:
                 continue
             self.st.fields[f] = self.ctx.fresh("hvF_" + f, ArrIV)
         self.st.heap_gen += 1
-        for f in pf:
-            self.st.field_arr(f) if f not in self.st.fields else None
         # (protected fields keep their current arrays; unseen unprotected fields get generation-fresh names)
         self.st.ghost["_havoc_all"] = True
         self.st.llen = self.ctx.fresh("hvLLen", self.st.llen.sort())
@@ -548,8 +581,9 @@ class StmtMixin:
         tup = self.table.id("tuple")
         seqs = {self.table.id(n) for n in ("list", "set", "frozenset", "deque")}
         dcts = {self.table.id(n) for n in ("dict", "OrderedDict")}
+        loop_touched = self.st.ghost.get("_loop_touched") or ()
         for rid, cid in self.st.alloc_class.items():
-            private = rid not in self.st.escaped
+            private = rid not in self.st.escaped and rid not in loop_touched
             r = z3.IntVal(rid)
             if cid == tup or (private and cid in seqs):
                 self.st.llen = z3.Store(self.st.llen, r, z3.Select(old[0], r))
@@ -727,16 +761,25 @@ class StmtMixin:
         self.ctx.assume(z3.And(idx >= 0, idx <= seq.length))
         if spec is not None and spec.invariant is not None:
             self.ctx.assume(spec.invariant(L))
+        ys = self.st.ghost.get("yields")
+        yields_here = bool(ys) and any(isinstance(n, (ast.Yield, ast.YieldFrom)) for b in st.body for n in ast.walk(b))
+        L.iter_yields_start = len(ys[-1]) if ys else 0
         if self.ctx.branch(idx < seq.length, "for-more"):
             self.assign_target(st.target, seq.element(idx), st)
             self.st.ghost["loop_index"] = idx
             L.iter_pre = self.st.snapshot()
+            L.iter_pre_locals = dict(self.frame.locals)
             L.iter_log_start = len(self.st.log)
             try:
                 self.exec_block(st.body)
             except ContinueEx:
                 pass
             except BreakEx:
+                if spec is not None and spec.body_no_raise:
+                    # a per-element loop contract: every element has to be visited
+                    self.ctx.oblige(self.obl_name("SIG", "%s/body/break" % label), "SIG", z3.BoolVal(False),
+                                    detail="a break ends the loop early: the remaining elements are skipped")
+                    raise PathAbort("loop body broke out (reported)")
                 return
             except PyRaise as pr:
                 if spec is not None and spec.body_no_raise:
@@ -753,6 +796,9 @@ class StmtMixin:
                 self._oblige_body(label, spec.body_ensures(L))
             raise PathAbort("loop iteration verified")
         # loop finished: idx == length, invariant holds
+        if yields_here:
+            # a generator whose loop was verified for an arbitrary iteration: what it yielded overall is abstract
+            self.st.ghost.setdefault("yields_abstract", set()).add(id(ys[-1]))
 
     # ------------------------------------------------------------------ raise / try / with
     def s_Raise(self, st):
@@ -789,7 +835,7 @@ class StmtMixin:
                     if self.ctx.branch(self.handler_matches(h, ex.exc), "except-match"):
                         handled = True
                         if h.name:
-                            self.frame.locals[h.name] = ex.exc
+                            self.assign_name(h.name, ex.exc)
                         self.current_exc.append(ex)
                         try:
                             self.exec_block(h.body)
